@@ -41,6 +41,10 @@ def pair? : Sexp → Option (Nat × Nat)
   | _ => none
 
 def case? : List Sexp → Option Case
+  | [k, f, a, b, r, s, pos, .list kw, fl, .list pre] => do
+    some { cell := { kind := (← kind? k), ft := (← ft? f), acc := (← acc? a), bk := (← bk? b) },
+           raises := (← r.bool?), sig := (← sig? s), args := { pos := (← pos.natList?), kw := (← kw.mapM pair?) },
+           falsy := (← fl.bool?), pre := (← pre.mapM acc?) }
   | [k, f, a, b, r, s, pos, .list kw] => do
     some { cell := { kind := (← kind? k), ft := (← ft? f), acc := (← acc? a), bk := (← bk? b) },
            raises := (← r.bool?), sig := (← sig? s), args := { pos := (← pos.natList?), kw := (← kw.mapM pair?) } }
